@@ -247,7 +247,7 @@ def dictionary(B, G):
                 G.eq("%s_row%d_eig[%d].re" % (L, r, c), O.re(acc), ev * O.re(ket[c]))
                 G.eq("%s_row%d_eig[%d].im" % (L, r, c), O.im(acc), ev * O.im(ket[c]))
                 nrm = nrm + O.abs2(ket[c])
-            G.eq("%s_row%d_norm" % (L, r), nrm, one)
+            G.eq("%s_row%d_norm" % (L, r), nrm, one, tol=1e-13)  # (double-precision constants: the float run must agree to ~1e-16)
     # unitarity of every default matrix
     for L in "XYZ":
         for r in range(2):
@@ -255,7 +255,7 @@ def dictionary(B, G):
                 acc = O.cplx(zero)
                 for k in range(2):
                     acc = acc + m[L][r][k] * O.conj(m[L][c][k])
-                G.eq("%s_unitary[%d,%d].re" % (L, r, c), O.re(acc), one if r == c else zero)
+                G.eq("%s_unitary[%d,%d].re" % (L, r, c), O.re(acc), one if r == c else zero, tol=1e-13)
                 G.eq("%s_unitary[%d,%d].im" % (L, r, c), O.im(acc), zero)
     G.twin("twin_y_sign", O.im(m["Y"][0][1]), -O.im(m["Y"][0][1]))
 
@@ -356,6 +356,7 @@ def jobs(tier):
         J.append(dict(name=name, module="checks.c04", scenario=scen, kwargs=kw))
 
     add("dictionary", "dictionary")
+    J[-1]["opts"] = dict(extreme=dict(scale=1.0, points=1))  # no parameters: one real-torch run checks the constants in floating point
     add("explicit-n1", "explicit", n=1, strings=all_strings(1))
     add("explicit-n2", "explicit", n=2, strings=all_strings(2))
     add("custom-n2", "explicit", n=2, strings=["AB", "XA", "BY", "AA"], custom=True)
